@@ -13,7 +13,7 @@ import sys
 import project  # noqa  (puts the repository under test on sys.path)
 
 HERE = os.path.dirname(os.path.abspath(__file__))
-COLS = ["n", "m", "s", "u", "b", "d"]
+COLS = ["n", "m", "s", "u", "b", "d", "e", "dd", "tt", "du"]
 
 
 def pyval(v, flavour):
@@ -30,6 +30,16 @@ def pyval(v, flavour):
     if k == "t":
         x = dt.datetime(*v[1:7])
         return x.strftime("%Y-%m-%d %H:%M:%S") if flavour == "raw" else x
+    if k == "d":
+        x = dt.date(*v[1:4])
+        return x.isoformat() if flavour == "raw" else x
+    if k == "tod":
+        x = dt.time(*v[1:4])
+        return x.strftime("%H:%M:%S") if flavour == "raw" else x
+    if k == "dur":
+        if flavour == "raw":
+            raise ValueError("the raw SQLite fixture has no duration values")
+        return dt.timedelta(seconds=v[1])
     raise ValueError(v)
 
 
@@ -69,13 +79,14 @@ class RawSqlite:
     def __init__(self, groups):
         self.groups = groups
         self.conn = sqlite3.connect(":memory:")
-        self.conn.execute("CREATE TABLE row (id INTEGER PRIMARY KEY, grp INTEGER, n INTEGER, m INTEGER, s TEXT, u TEXT, b INTEGER, d TEXT)")
+        self.conn.execute("CREATE TABLE row (id INTEGER PRIMARY KEY, grp INTEGER, n INTEGER, m INTEGER, s TEXT, u TEXT, b INTEGER, d TEXT, "
+                          "e TEXT, dd TEXT, tt TEXT, du TEXT)")
         self.loaded = set()
 
     def ensure(self, cols):
         grp, index, rows = self.groups.get(cols)
         if grp not in self.loaded:
-            self.conn.executemany("INSERT INTO row (id, grp, n, m, s, u, b, d) VALUES (?,?,?,?,?,?,?,?)",
+            self.conn.executemany("INSERT INTO row (id, grp, %s) VALUES (?,?,%s)" % (", ".join(COLS), ",".join("?" * len(COLS))),
                                   [(rid, g) + tuple(pyval(vals[c], "raw") if c in vals else None for c in COLS) for rid, g, vals in rows])
             self.loaded.add(grp)
         return grp, index
@@ -165,6 +176,10 @@ class SaDb:
             u = sa.Column(sa.String)
             b = sa.Column(sa.Boolean)
             d = sa.Column(sa.DateTime)
+            e = sa.Column(sa.DateTime)
+            dd = sa.Column(sa.Date)
+            tt = sa.Column(sa.Time)
+            du = sa.Column(sa.Interval)
 
         self.Row = Row
         self.Base = Base
